@@ -110,6 +110,10 @@ class C19(scen.WorldProp):
         # while it holds up for that human, or between its own strikes; then 300 s of silence
         for i in range(12 if tier == "quick" else 150):
             yield self.stop_with_humans(rng)
+        # (iv) a peal-speed change after a human has held Wheatley up: the bend must be at the current
+        # position of the *held-up* rhythm
+        for i in range(16 if tier == "quick" else 200):
+            yield self.speed_after_hold_up(rng)
 
     def corpus(self):
         # witness of the repaired exit race: Look To lands in the last 10 ms idle poll before the deadline
@@ -198,8 +202,33 @@ class C19(scen.WorldProp):
         return {"k": "world", "scenario": sc,
                 "plan": {"first": N, "t0": t0, "N": N, "t_stop": t_stop, "long": True, "humans": humans, "lag": lag}}
 
+    def speed_after_hold_up(self, rng):
+        N = rng.choice([6, 8])
+        I0 = scen.interval(180, N)
+        t0 = 1000.5 + rng.random()
+        human = rng.randint(2, N)
+        D = rng.choice([0.4, 1.0, 2.5]) * rng.uniform(0.9, 1.1)
+        sp = rng.choice([120, 150, 240])
+        r_sp = rng.randint(4, 6)
+        # between two of Wheatley's own places of row r_sp (a wait in progress is not re-timed)
+        own = [p for p in range(N - 1) if p + 1 != human and p + 2 != human and p != human - 1]
+        p_sp = rng.choice(own) if own else 0
+        t_sp = t0 + 3 + I0 * (scen.blow_index(N, 1.0, r_sp, p_sp) + 0.4) + D + 0.02
+        events = [[t0 - 0.3, "msg", method_msg(N)], call(t0, LOOK_TO),
+                  [t_sp, "msg", {"m": "setting", "kvs": [["peal_speed", sp]]}]]
+        sc = {"start": 1000.0, "end": t_sp + 4 * scen.interval(sp, N) * (N + 1), "tower_size": N, "events": events,
+              "on_join": scen.humans_on_join([human], "Wheatley", [b for b in range(1, 17) if b != human]),
+              "bot": scen.bot_cfg({"type": "placeholder"}, up_down_in=True, stop_at_rounds=False, user_name="Wheatley",
+                                  server_id=rng.randint(1, 9)),
+              "rhythm": scen.rhythm_cfg("wait", inertia=1.0, peal_speed=180, initial_inertia=1.0)}
+        return {"k": "world", "scenario": sc,
+                "plan": {"first": N, "t0": t0, "N": N, "speed": sp, "t_sp": t_sp, "held": human, "D": D}}
+
     def agents(self, req):
         plan = req.get("plan") or {}
+        if "held" in plan:
+            # the human is D late once, in row 2, and punctual (slightly early) otherwise
+            return lambda s: [scen.Follower(s, [plan["held"]], lambda r, p: plan["D"] if r == 2 else 0.0)]
         if "humans" not in plan:
             return None
         return lambda s: [scen.Follower(s, plan["humans"], lambda r, p: plan["lag"], stop=plan["t_stop"])]
@@ -227,7 +256,7 @@ class C19(scen.WorldProp):
         if req["k"] == "sched":
             return "sched:" + req["pair"]
         plan = req["plan"]
-        return "session:" + ("stop+humans" if "humans" in plan else "second" if "second" in plan else "speed" if "speed" in plan else
+        return "session:" + ("speed-after-hold-up" if "held" in plan else "stop+humans" if "humans" in plan else "second" if "second" in plan else "speed" if "speed" in plan else
                              "malformed" if "malformed" in plan else "long" if "long" in plan else "stop")
 
     def nontrivial(self, req, reply):
@@ -277,6 +306,26 @@ class C19(scen.WorldProp):
         def touch_rows(t_from, t_to):
             bells = [b for (t, b, h) in rings if t_from <= t < t_to]
             return [bells[i:i + N] for i in range(0, len(bells) - len(bells) % N, N)]
+        if "held" in plan:
+            # every accepted strike in server order: index k is blow k // N * N + k % N (+ one gap per whole pull)
+            strikes = [(scen.b2f(t), b, by) for t, b, by in reply["strikes"]]
+            blow = lambda k: scen.blow_index(N, 1.0, k // N, k % N)      # noqa: E731
+            I0, I1 = scen.interval(180, N), scen.interval(plan["speed"], N)
+            tc = plan["t_sp"]
+            own = [(t, blow(k)) for k, (t, b, by) in enumerate(strikes) if by == "wheatley"]
+            before = [x for x in own if x[0] <= tc]
+            after = [x for x in own if x[0] > tc]
+            if not before or len(after) < 3:
+                return None
+            tA, bA = before[-1]
+            pos_c = bA + (tc - tA) / I0                 # the position the rhythm has reached when the setting arrives
+            for (tB, bB) in after[1:4]:                 # (the wait in progress at the change is not re-timed)
+                want = tc + (bB - pos_c) * I1
+                if abs(tB - want) > 0.0201:
+                    return (f"peal speed {180} -> {plan['speed']} after a {plan['D']:.2f} s hold-up: blow {bB} struck at "
+                            f"{tB - tc:.4f} s after the change, a bend at the current position gives {want - tc:.4f} s "
+                            f"(jump of {(tB - want) / I1:+.3f} places)")
+            return None
         if "humans" in plan:
             return None
         first_end = plan.get("t1", float("inf"))
